@@ -168,7 +168,57 @@ def s_c4f2d_item():
             ("d2", d2, "FixedArray2D.slice-copy", rd_2d, None, None, None)]
 
 
-SCENARIOS = [("IntArray/masked-reference/memoryview", s_int_masked_buffer), ("FloatArray/memoryview/memoryview-slice", s_float_buffer_slice),
+# ---- component views (.x/.min/.r ...): they address the owner's storage with a stride, so they must share its ownership; a
+# component view of an array that itself only BORROWS its storage (a FixedVArray row) must keep that array, and through it
+# the V-array, alive
+def _v3f(n=3): return _fill(imath.V3fArray(n), [imath.V3f(10 * i + 1, 10 * i + 2, 10 * i + 3) for i in range(n)])
+
+
+def s_v3f_comp_masked():
+    o = _v3f(); d1 = o.x; d2 = d1[int_array([1, 0, 1])]
+    return [("o", o, "FixedArray", rd_arr, wb_arr, None, None), ("d1", d1, "FixedArray.component-view", rd_arr, wb_arr, None, None),
+            ("d2", d2, "FixedArray.component-view>masked-reference", rd_arr, wb_arr, None, None)]
+
+
+def s_box_min_comp():
+    o = _fill(imath.Box3fArray(2), [imath.Box3f(imath.V3f(i, i + 1, i + 2), imath.V3f(i + 3, i + 4, i + 5)) for i in (1, 7)])
+    d1 = o.min; d2 = d1.y
+    return [("o", o, "FixedArray", rd_arr, wb_arr, None, None), ("d1", d1, "FixedArray.component-view", rd_arr, wb_arr, None, None),
+            ("d2", d2, "FixedArray.component-view>component-view", rd_arr, wb_arr, None, None)]
+
+
+def s_quat_masked_comp():
+    o = _fill(imath.QuatfArray(3), [imath.Quatf(i, i + 1, i + 2, i + 3) for i in (1, 5, 9)])
+    d1 = o[int_array([1, 0, 1])]; d2 = d1.r
+    return [("o", o, "FixedArray", rd_arr, wb_arr, None, None), ("d1", d1, "FixedArray.masked-reference", rd_arr, wb_arr, None, None),
+            ("d2", d2, "FixedArray.masked-reference>component-view", rd_arr, wb_arr, None, None)]
+
+
+def s_c4f_comp_copy():
+    o = _fill(imath.C4fArray(2), [imath.Color4f(i, i + 1, i + 2, i + 3) for i in (1, 5)])
+    d1 = imath.C4fArray(o); d2 = d1.a
+    return [("o", o, "FixedArray", rd_arr, wb_arr, None, None), ("d1", d1, "FixedArray.copy-constructed", rd_arr, wb_arr, None, None),
+            ("d2", d2, "FixedArray.copy-constructed>component-view", rd_arr, wb_arr, None, None)]
+
+
+def s_varray_row_comp():
+    o = _var(imath.VV2fArray, [2, 1], lambda k: imath.V2f(k, k + 1))
+    d1 = o[0]; d2 = d1.x
+    return [("o", o, "FixedVArray", rd_var, None, None, None), ("d1", d1, "FixedVArray.row", rd_arr, wb_arr, ["o"], "o"),
+            ("d2", d2, "FixedVArray.row>component-view", rd_arr, wb_arr, ["o"], "d1")]
+
+
+def s_varray_masked_row_comp():
+    o = _var(imath.VV2iArray, [1, 2, 2], lambda k: imath.V2i(k, k + 1))
+    d1 = o[int_array([0, 1, 1])]; r = d1[1]; d2 = r.y; del r
+    return [("o", o, "FixedVArray", rd_var, None, None, None), ("d1", d1, "FixedVArray.masked-reference", rd_var, None, None, None),
+            ("d2", d2, "FixedVArray.row>component-view", rd_arr, wb_arr, ["o", "d1"], "d1")]
+
+
+SCENARIOS = [("V3fArray/component-view/masked-reference-of-it", s_v3f_comp_masked), ("Box3fArray/component-view/component-of-it", s_box_min_comp),
+             ("QuatfArray/masked-reference/component-of-it", s_quat_masked_comp), ("C4fArray/copy/component-of-copy", s_c4f_comp_copy),
+             ("VV2fArray/row/component-of-row", s_varray_row_comp), ("VV2iArray/masked-reference/component-of-row-of-it", s_varray_masked_row_comp),
+             ("IntArray/masked-reference/memoryview", s_int_masked_buffer), ("FloatArray/memoryview/memoryview-slice", s_float_buffer_slice),
              ("V3fArray/element-reference/masked-reference", s_v3f_elem_masked), ("V3fArray/masked-reference/element-of-it", s_v3f_masked_elem),
              ("IntArray/inplace-op-results", s_int_iop_result),
              ("IntMatrix/row/masked-reference-of-row", s_matrix_row_masked), ("FloatMatrix/row/row", s_matrix_two_rows),
@@ -189,9 +239,18 @@ def play(build, order, deref_dangling):
     for name in objs: base[name] = meta[name][1](objs[name])
     out = []
     steps = []
+    churn = []
     for gone in order:
         del objs[gone]
         gc.collect(); gc.collect()
+        # Recycle the heap: if the release freed storage that a survivor still points into, new arrays of the same allocation
+        # size take it over and fill it with 0xAB bytes, so that the stale view visibly "reads-wrong" also without a sanitizer
+        # (a mismatch is always a genuine failure; without one nothing is concluded from this step).
+        for nbytes in (8, 16, 24, 32, 36, 40, 48, 56, 64, 72, 96, 128):
+            for _ in range(3):
+                c = imath.UnsignedCharArray(nbytes)
+                c[slice(None)] = 0xAB
+                churn.append(c)
         steps.append(gone)
         for name in list(objs):
             label, rd, wb, holders, parent = meta[name]
